@@ -5,7 +5,7 @@
    This file is the semantics: it is part of the trusted base of that tie and is meant to be read.
 
    Values are dynamically typed; an ill-typed operation raises XType (Python: TypeError/AttributeError...).
-   Integers are naturals (the methods only add and compare lengths and offsets).  Executable; no proofs here. *)
+   Integers are naturals (the methods only add and compare lengths and offsets); + also concatenates bytes.  Executable; no proofs here. *)
 From Coq Require Import NArith List Bool String.
 Import ListNotations.
 From Molli Require Import Model.UKV.
@@ -122,6 +122,7 @@ Section Eval.
                  | Val _ => Exn XType | Exn x => Exn x end
     | EAdd a b => match eval a with
                   | Val (VInt x) => match eval b with Val (VInt y) => Val (VInt (x + y)) | Val _ => Exn XType | Exn z => Exn z end
+                  | Val (VBytes x) => match eval b with Val (VBytes y) => Val (VBytes (x ++ y)) | Val _ => Exn XType | Exn z => Exn z end
                   | Val _ => match eval b with Exn z => Exn z | _ => Exn XType end
                   | Exn z => Exn z end
     | EEq a b => match eval a with
